@@ -1,3 +1,406 @@
 package univ
 
-func childMain() {}
+import (
+	"bufio"
+	"encoding/json"
+	"fmt"
+	"go/constant"
+	"go/token"
+	"go/types"
+	"os"
+	"os/exec"
+	"runtime/debug"
+	"sort"
+	"strings"
+	"time"
+
+	gengotypes "github.com/octohelm/gengo/pkg/types"
+
+	"vt/internal/ev"
+)
+
+// ---- supervised child for C14: ResultsOf is called for every function of a loaded universe in a separate
+// process, because unbounded recursion ends in a fatal stack overflow that cannot be recovered in-process ----
+
+type c14Exp struct {
+	Kind string `json:"kind"` // int | float | string | bool | nil
+	Val  string `json:"val,omitempty"`
+}
+
+type c14Job struct {
+	Dir      string   `json:"dir"`
+	Patterns []string `json:"patterns"`
+	Closure  bool     `json:"closure"` // visit every package of the import closure, not only the local ones
+	Start    int      `json:"start"`
+	// Literal: for literal-only functions "pkgpath.name" -> per result position -> expected alternatives in source order
+	Literal  map[string][][]c14Exp `json:"literal,omitempty"`
+	Progress string                `json:"progress"`
+	Out      string                `json:"out"`
+}
+
+type c14Line struct {
+	Idx     int    `json:"idx"`
+	Name    string `json:"name"`
+	N       int    `json:"n"`
+	HasBody bool   `json:"hasbody"`
+	Alts    int    `json:"alts"`
+	Err     string `json:"err,omitempty"`
+	Done    bool   `json:"done,omitempty"`
+	Total   int    `json:"total,omitempty"`
+}
+
+const c14ChildEnv = "VT_C14_CHILD"
+
+func childMain() {
+	f := os.Getenv(c14ChildEnv)
+	if f == "" {
+		return
+	}
+	debug.SetMaxStack(64 << 20)
+	b, err := os.ReadFile(f)
+	if err != nil {
+		fmt.Fprintln(os.Stderr, "child:", err)
+		os.Exit(97)
+	}
+	var job c14Job
+	if err := json.Unmarshal(b, &job); err != nil {
+		fmt.Fprintln(os.Stderr, "child:", err)
+		os.Exit(97)
+	}
+	u, err := load(job.Dir, job.Patterns...)
+	if err != nil {
+		fmt.Fprintln(os.Stderr, "child: load:", err)
+		os.Exit(97)
+	}
+	funcs := enumerateFuncs(u, job.Closure)
+	prog, err := os.OpenFile(job.Progress, os.O_CREATE|os.O_WRONLY|os.O_APPEND, 0o644)
+	if err != nil {
+		fmt.Fprintln(os.Stderr, "child:", err)
+		os.Exit(97)
+	}
+	out, err := os.OpenFile(job.Out, os.O_CREATE|os.O_WRONLY|os.O_APPEND, 0o644)
+	if err != nil {
+		fmt.Fprintln(os.Stderr, "child:", err)
+		os.Exit(97)
+	}
+	w := bufio.NewWriter(out)
+	enc := json.NewEncoder(w)
+	for i, fn := range funcs {
+		if i < job.Start {
+			continue
+		}
+		name := funcName(fn)
+		fmt.Fprintf(prog, "BEGIN %d %s\n", i, name)
+		line := c14Line{Idx: i, Name: name, N: fn.Type().(*types.Signature).Results().Len()}
+		p := u.Package(fn.Pkg().Path())
+		if p == nil {
+			line.Err = "Universe.Package is nil for the function's package"
+		} else {
+			var alts int
+			var hasBody bool
+			if e := ev.Guard(func() error {
+				var err error
+				alts, hasBody, err = checkResults(p, fn, job.Literal[name])
+				return err
+			}); e != nil {
+				line.Err = e.Error()
+			}
+			line.Alts, line.HasBody = alts, hasBody
+		}
+		_ = enc.Encode(line)
+		w.Flush() // a crash in the next call must not lose this line
+	}
+	_ = enc.Encode(c14Line{Done: true, Total: len(funcs)})
+	w.Flush()
+	out.Close()
+	os.Exit(0)
+}
+
+func funcName(fn *types.Func) string {
+	sig := fn.Type().(*types.Signature)
+	if r := sig.Recv(); r != nil {
+		return fmt.Sprintf("%s.(%s).%s", fn.Pkg().Path(), types.TypeString(r.Type(), func(*types.Package) string { return "" }), fn.Name())
+	}
+	return fn.Pkg().Path() + "." + fn.Name()
+}
+
+// enumerateFuncs lists functions, methods and interface methods of the local packages (or the whole closure) in a fixed order.
+func enumerateFuncs(u *gengotypes.Universe, closure bool) []*types.Func {
+	var roots []string
+	for pp := range u.LocalPkgPaths() {
+		roots = append(roots, pp)
+	}
+	sort.Strings(roots)
+	var pkgs []gengotypes.Package
+	if closure {
+		_, err := walkUniverse(u, roots, func(p gengotypes.Package) error { pkgs = append(pkgs, p); return nil })
+		if err != nil {
+			fmt.Fprintln(os.Stderr, "child:", err)
+			os.Exit(97)
+		}
+	} else {
+		for _, r := range roots {
+			pkgs = append(pkgs, u.Package(r))
+		}
+	}
+	sort.Slice(pkgs, func(i, j int) bool { return pkgs[i].Pkg().Path() < pkgs[j].Pkg().Path() })
+	var out []*types.Func
+	for _, p := range pkgs {
+		scope := p.Pkg().Scope()
+		for _, n := range scope.Names() {
+			switch o := scope.Lookup(n).(type) {
+			case *types.Func:
+				out = append(out, o)
+			case *types.TypeName:
+				if o.IsAlias() {
+					continue
+				}
+				named, ok := o.Type().(*types.Named)
+				if !ok {
+					continue
+				}
+				for i := 0; i < named.NumMethods(); i++ {
+					out = append(out, named.Method(i))
+				}
+				if it, ok := named.Underlying().(*types.Interface); ok {
+					for i := 0; i < it.NumExplicitMethods(); i++ {
+						out = append(out, it.ExplicitMethod(i))
+					}
+				}
+			}
+		}
+	}
+	return out
+}
+
+func nilable(t types.Type) bool {
+	switch u := t.Underlying().(type) {
+	case *types.Pointer, *types.Slice, *types.Map, *types.Chan, *types.Signature, *types.Interface:
+		return true
+	case *types.Basic:
+		return u.Kind() == types.UnsafePointer || u.Kind() == types.UntypedNil
+	}
+	if _, ok := t.(*types.TypeParam); ok {
+		return true
+	}
+	return false
+}
+
+// checkResults is the oracle for one function.
+func checkResults(p gengotypes.Package, fn *types.Func, literal [][]c14Exp) (alts int, hasBody bool, err error) {
+	sig := fn.Type().(*types.Signature)
+	declared := sig.Results()
+	results, n := p.ResultsOf(fn)
+	if n != declared.Len() {
+		return 0, false, fmt.Errorf("ResultsOf reports %d results, the function declares %d", n, declared.Len())
+	}
+	if declared.Len() == 0 {
+		return 0, true, nil
+	}
+	if len(results) != declared.Len() {
+		return 0, false, fmt.Errorf("ResultsOf returns %d lists for %d declared results: %s", len(results), declared.Len(), results)
+	}
+	for i, list := range results {
+		if len(list) == 0 {
+			return alts, false, fmt.Errorf("result %d has no alternative at all: %s", i, results)
+		}
+		want := declared.At(i).Type()
+		for _, r := range list {
+			alts++
+			if r.Expr != nil {
+				hasBody = true
+			}
+			if r.Value != nil {
+				if r.Value.Kind() == constant.Unknown {
+					return alts, hasBody, fmt.Errorf("result %d: alternative has an unknown constant value: %s", i, results)
+				}
+				continue
+			}
+			if r.Type == nil {
+				return alts, hasBody, fmt.Errorf("result %d: alternative with neither a value nor a type: %s", i, results)
+			}
+			if b, ok := r.Type.(*types.Basic); ok {
+				if b.Kind() == types.Invalid {
+					return alts, hasBody, fmt.Errorf("result %d: alternative has the invalid type: %s", i, results)
+				}
+				if b.Kind() == types.UntypedNil {
+					if !nilable(want) {
+						return alts, hasBody, fmt.Errorf("result %d: alternative nil is not assignable to %s", i, want)
+					}
+					continue
+				}
+			}
+			if !types.AssignableTo(r.Type, want) {
+				return alts, hasBody, fmt.Errorf("result %d (declared %s): alternative of type %s is not assignable to it: %s", i, want, r.Type, results)
+			}
+		}
+	}
+	// the answer is the same on every call
+	again, n2 := p.ResultsOf(fn)
+	if n2 != n || again.String() != results.String() {
+		return alts, hasBody, fmt.Errorf("second call answers %s (n=%d), first call %s (n=%d)", again, n2, results, n)
+	}
+	// literal-only functions: exactly the listed values in source order
+	if literal != nil {
+		if len(literal) != len(results) {
+			return alts, hasBody, fmt.Errorf("harness: expectation has %d positions, function %d", len(literal), len(results))
+		}
+		for i := range literal {
+			if len(results[i]) != len(literal[i]) {
+				return alts, hasBody, fmt.Errorf("literal-only function, result %d: %d alternatives %s, the return statements list %d values %v", i, len(results[i]), results[i], len(literal[i]), literal[i])
+			}
+			for j, exp := range literal[i] {
+				got := results[i][j]
+				if exp.Kind == "nil" {
+					if got.Value != nil {
+						return alts, hasBody, fmt.Errorf("literal-only function, result %d alternative %d: got value %s, want nil", i, j, got.Value)
+					}
+					if b, ok := got.Type.(*types.Basic); !ok || b.Kind() != types.UntypedNil {
+						// a typed nil of the declared type is as good
+						if got.Type == nil || !nilable(got.Type) {
+							return alts, hasBody, fmt.Errorf("literal-only function, result %d alternative %d: got %s, want nil", i, j, got)
+						}
+					}
+					continue
+				}
+				var want constant.Value
+				switch exp.Kind {
+				case "int":
+					want = constant.MakeFromLiteral(exp.Val, token.INT, 0)
+				case "float":
+					want = constant.MakeFromLiteral(exp.Val, token.FLOAT, 0)
+				case "string":
+					want = constant.MakeString(exp.Val)
+				case "bool":
+					want = constant.MakeBool(exp.Val == "true")
+				}
+				if got.Value == nil || got.Value.Kind() == constant.Unknown {
+					return alts, hasBody, fmt.Errorf("literal-only function, result %d alternative %d: got %s, want the constant %s", i, j, got, want)
+				}
+				gv := got.Value
+				if want.Kind() == constant.Float || gv.Kind() == constant.Float {
+					gv, want = constant.ToFloat(gv), constant.ToFloat(want)
+				}
+				if gv.Kind() != want.Kind() || !constant.Compare(gv, token.EQL, want) {
+					return alts, hasBody, fmt.Errorf("literal-only function, result %d alternative %d: got %s, want %s (all: %s)", i, j, got.Value, want, results[i])
+				}
+			}
+		}
+	}
+	return alts, hasBody, nil
+}
+
+type c14Crash struct {
+	Idx    int
+	Name   string
+	Stderr string
+	Exit   int
+}
+
+// superviseC14 runs the child until all functions are visited. It returns the per-function lines, the crashes and a harness error.
+func superviseC14(job c14Job, scratch string, limit time.Duration, maxCrashes int) (lines []c14Line, crashes []c14Crash, total int, err error) {
+	job.Progress = scratch + "/progress"
+	job.Out = scratch + "/out"
+	jobFile := scratch + "/job.json"
+	for {
+		_ = os.Remove(job.Progress)
+		_ = os.Remove(job.Out)
+		b, _ := json.Marshal(job)
+		if e := os.WriteFile(jobFile, b, 0o644); e != nil {
+			return nil, nil, 0, e
+		}
+		cmd := exec.Command(os.Args[0], "-test.run", "^$")
+		cmd.Env = append(os.Environ(), c14ChildEnv+"="+jobFile, "VT_OUT=")
+		var eb strings.Builder
+		cmd.Stderr = &limitedWriter{b: &eb, max: 6000}
+		if e := cmd.Start(); e != nil {
+			return nil, nil, 0, e
+		}
+		done := make(chan error, 1)
+		go func() { done <- cmd.Wait() }()
+		var werr error
+		timedOut := false
+		select {
+		case werr = <-done:
+		case <-time.After(limit):
+			_ = cmd.Process.Kill()
+			<-done
+			timedOut = true
+		}
+		// collect what the child managed to write
+		finished := false
+		if ob, e := os.ReadFile(job.Out); e == nil {
+			sc := bufio.NewScanner(strings.NewReader(string(ob)))
+			sc.Buffer(make([]byte, 1<<20), 1<<24)
+			for sc.Scan() {
+				var l c14Line
+				if json.Unmarshal(sc.Bytes(), &l) != nil {
+					continue
+				}
+				if l.Done {
+					finished = true
+					total = l.Total
+					continue
+				}
+				lines = append(lines, l)
+			}
+		}
+		if finished && werr == nil {
+			return lines, crashes, total, nil
+		}
+		if timedOut {
+			return lines, crashes, total, fmt.Errorf("child exceeded %v (last progress: %s)", limit, lastProgress(job.Progress))
+		}
+		exit := -1
+		if ee, ok := werr.(*exec.ExitError); ok {
+			exit = ee.ExitCode()
+		}
+		if exit == 97 {
+			return lines, crashes, total, fmt.Errorf("child role failed: %s", eb.String())
+		}
+		lp := lastProgress(job.Progress)
+		var idx int
+		var name string
+		if _, e := fmt.Sscanf(lp, "BEGIN %d %s", &idx, &name); e != nil {
+			return lines, crashes, total, fmt.Errorf("child died (exit %d) before reporting progress: %s", exit, eb.String())
+		}
+		crashes = append(crashes, c14Crash{Idx: idx, Name: name, Stderr: firstLines(eb.String(), 6), Exit: exit})
+		if len(crashes) >= maxCrashes {
+			return lines, crashes, total, nil
+		}
+		job.Start = idx + 1
+	}
+}
+
+type limitedWriter struct {
+	b   *strings.Builder
+	max int
+}
+
+func (w *limitedWriter) Write(p []byte) (int, error) {
+	if w.b.Len() < w.max {
+		k := w.max - w.b.Len()
+		if k > len(p) {
+			k = len(p)
+		}
+		w.b.Write(p[:k])
+	}
+	return len(p), nil
+}
+
+func lastProgress(file string) string {
+	b, err := os.ReadFile(file)
+	if err != nil {
+		return ""
+	}
+	ls := strings.Split(strings.TrimSpace(string(b)), "\n")
+	return ls[len(ls)-1]
+}
+
+func firstLines(s string, n int) string {
+	ls := strings.Split(s, "\n")
+	if len(ls) > n {
+		ls = ls[:n]
+	}
+	return strings.Join(ls, "\n")
+}
